@@ -1104,25 +1104,35 @@ def run_scenarios(scs: List[Dict[str, Any]], procs: int = 0) -> List[Dict[str, A
 # ------------------------------------------------------------------------------------------------
 # scenario sources
 # ------------------------------------------------------------------------------------------------
-def dump_done_states(module: str, cfg: str, run, **kw) -> Tuple[List[Dict[str, Any]], Any]:
-    """Model-check a design configuration (R.design) and return the parsed states with phase = "done" (the completed
-    pipelines) of TLC's dump; the count of ALL dumped states is checked against TLC's own statistics."""
+def dump_done_states(module: str, cfg: str, run, keep: int = 0, rng: Optional[random.Random] = None, **kw):
+    """Model-check a design configuration (R.design) and return (parsed states with phase = "done" - the completed
+    pipelines - of TLC's dump, number of ALL completed pipelines, TLC result).  keep > 0: a uniform reservoir sample of
+    that many completed pipelines is parsed (the dumps of the thorough configurations hold 10^5 of them); the count of ALL
+    dumped states is checked against TLC's own statistics."""
     import re
     import tempfile
     base = tempfile.mktemp(prefix="pipe-dump-", dir=tlc.scratch())
     res = run.design(module, cfg, extra=["-dump", base], **kw)
     path = base + ".dump" if os.path.exists(base + ".dump") else base
     head = re.compile(r"^State \d+:\s*$")
-    done: List[Dict[str, Any]] = []
+    rng = rng or random.Random(0)
+    kept: List[str] = []
     n_states = 0
+    n_done = 0
     cur: List[str] = []
 
     def flush():
-        nonlocal n_states
+        nonlocal n_states, n_done
         if any(l.strip() for l in cur):
             n_states += 1
             if any(l.startswith('/\\ phase = "done"') for l in cur):
-                done.append(tlc.parse_state("".join(cur).strip()))
+                n_done += 1
+                if not keep or len(kept) < keep:
+                    kept.append("".join(cur))
+                else:
+                    j = rng.randrange(n_done)
+                    if j < keep:
+                        kept[j] = "".join(cur)
     with open(path) as fh:               # streamed: the dumps of the thorough configurations are several hundred MB
         for line in fh:
             if head.match(line):
@@ -1134,7 +1144,7 @@ def dump_done_states(module: str, cfg: str, run, **kw) -> Tuple[List[Dict[str, A
     os.unlink(path)
     if n_states != res.distinct:
         raise tlc.MachineryError(f"dump of {module}/{cfg}: {n_states} states, TLC reported {res.distinct}")
-    return done, res
+    return [tlc.parse_state(b.strip()) for b in kept], n_done, res
 
 
 def _fun_items(f):
